@@ -209,8 +209,7 @@ class Ctx:
 
     @contextlib.contextmanager
     def scratch(self):
-        base = os.environ.get("VERIF_SCRATCH") or tempfile.gettempdir()
-        d = tempfile.mkdtemp(prefix="wverif-%s-" % self.pid, dir=base)
+        d = tempfile.mkdtemp(prefix="wverif-%s-" % self.pid, dir=tempfile.gettempdir())
         try:
             yield d
         finally:
@@ -387,6 +386,12 @@ def main(argv=None):
     except ValueError:
         seed = 0
     t0 = time.time()
+    # private temp dir: whoosh's RamStorage/temp_storage use <tmp>/MAIN.tmp, which concurrent runs share
+    import atexit
+    priv = tempfile.mkdtemp(prefix="wverif-tmp-", dir=os.environ.get("VERIF_SCRATCH") or None)
+    os.environ["TMPDIR"] = priv
+    tempfile.tempdir = priv
+    atexit.register(shutil.rmtree, priv, True)
     ctx = Ctx(pid, args.tier, seed)
     try:
         import whoosh
